@@ -1,7 +1,7 @@
 CONSTANTS
   MinLen = 20
   MaxLen = 200
-  Letters = {97, 98, 99, 100, 58, 49}
+  Letters = {97, 98, 233, 20870, 58, 49}
 SPECIFICATION Spec
 INVARIANTS Emit
 CHECK_DEADLOCK FALSE
